@@ -20,6 +20,9 @@ import (
 //go:linkname simSetPinRand runtime.simSetPinRand
 func simSetPinRand(v uint64)
 
+//go:linkname simGetPinCount runtime.simGetPinCount
+func simGetPinCount() uint64
+
 type RunResult struct {
 	Seed       int64          `json:"seed"`
 	Violations []Violation    `json:"violations,omitempty"`
@@ -40,6 +43,7 @@ type RunResult struct {
 
 	choices []Choice
 	events  []Event
+	draws   []uint64
 }
 
 type prngReader struct{ r *rand.Rand }
@@ -110,6 +114,7 @@ func RunOne(t *testing.T, cfg *Config, follow []Choice, strict bool) *RunResult 
 	res.Notes = w.notes
 	res.Finished = w.finished
 	res.choices = w.choices
+	res.draws = w.drawTrace
 	res.events = w.events
 	h := sha256.New()
 	for _, e := range w.events {
